@@ -1,7 +1,7 @@
 CONSTANTS
   MaxHeadings = 4
   MaxLevel = 3
-  VariantSet = {1, 7}
+  VariantSet = {1, 7, 8}
 INIT Init
 NEXT Next
 INVARIANT IndentNestingIsLevelNesting
